@@ -66,13 +66,20 @@ def run(v, tier):
     pats = [t for t in u['U1'] if subst_free(t)] + [x['p'] for x in u['NU1'] if subst_free(x['p'])]
     gn = funcs.Gen(pi2v.SEED + 13, ids=(0, 1, 2), notation=True)
     pats += [t for t in (gn.term(3) for _ in range(300 if quick else 15000)) if subst_free(t)]
+    import c12
+    M_ = pi2v.MV
+    ident = lambda x: pi2v.NINST(M_(0), [(0, x)])
+    # alias / projection notations (definition = a bare metavariable), aliases of aliases, several levels above a binder
+    chains = [x['p'] for x in c12.alias_chains(rng)] + [ident(pi2v.IMP(M_(0), M_(1))), ident(ident(pi2v.APP(M_(1), M_(2)))), ident(N['and'](M_(0), M_(1))),
+                                                         pi2v.IMP(ident(M_(1)), ident(pi2v.EX(0, M_(2)))), ident(pi2v.MU(1, pi2v.IMP(M_(0), pi2v.SV(0))))]
+    pats = chains * 3 + pats
     vals = [pi2v.EV(0), pi2v.EV(1), pi2v.SV(0), pi2v.SYM(0), M(0), M(1), pi2v.IMP(pi2v.EV(0), pi2v.SV(1)),
             pi2v.EX(0, pi2v.EV(0)), N['neg'](pi2v.EV(1)), N['bot'], pi2v.MU(0, pi2v.SV(0)), pi2v.APP(pi2v.SYM(0), pi2v.EV(1))]
     eqlists = []     # (eqs, seed)
     # instances BY CONSTRUCTION (spec->code: the instance is computed by the implementation's instantiate,
     # judged by TLC's own matcher, so a wrong instantiate cannot hide a wrong match)
     inst_cmds, inst_meta = [], []
-    for p in rng.sample(pats, min(len(pats), 500 if quick else 20000)):
+    for p in chains * 2 + rng.sample(pats, min(len(pats), 500 if quick else 20000)):
         th = [[i, rng.choice(vals)] for i in (0, 1, 2)]
         inst_cmds.append({'fn': 'instantiate', 'p': p, 'd': th}); inst_meta.append((p, th))
     for (p, th), r in zip(inst_meta, py_run(inst_cmds)):
